@@ -1159,12 +1159,28 @@ def gen_nonmonotone(rng, n):
     """permutation, or repeats + skips in non-monotone order; the set of
     indices is often contiguous"""
     r = rng.random()
-    if r < 0.4:
+    if r < 0.35 and n >= 4:
+        # first and last entry span exactly len(m) events, the interior is
+        # shuffled or has repeats (looks like a contiguous block from its
+        # length and end points)
+        lo = rng.randrange(0, n - 3)
+        hi = rng.randrange(lo + 3, n)
+        inner = list(range(lo + 1, hi))
+        if rng.random() < 0.5:
+            while len(inner) > 1 and inner == sorted(inner):
+                rng.shuffle(inner)
+        else:
+            inner = [rng.randint(lo, hi) for _ in inner]
+        m = [lo] + inner + [hi]
+        if m == sorted(set(m)):
+            m[1], m[-2] = m[-2], m[1]
+        return m
+    if r < 0.6:
         m = list(range(n))
         while n > 1 and m == sorted(m):
             rng.shuffle(m)
         return m
-    if r < 0.7:
+    if r < 0.75:
         lo = rng.randrange(n)
         hi = rng.randrange(lo, n)
         m = list(range(lo, hi + 1))
@@ -1237,9 +1253,71 @@ def gen_focus_case(rng):
                 queries=queries)
 
 
+def _some_queries(rng, fid, names, ns, k):
+    qs = []
+    for _ in range(k):
+        feat = rng.choice(names)
+        for ix in [gen_index(rng, ns, True)
+                   for _ in range(rng.randint(1, 2))]:
+            qs.append([fid, feat, ix])
+    return qs
+
+
+def gen_missing_case(rng):
+    """A referrer whose first basin (in lookup order) lists features that its
+    file does not have; the second basin, the origin itself, has them."""
+    seed = rng.randrange(10 ** 6)
+    n = rng.choice([2, 3, 5, 8])
+    kinds = ["scalar"] + sub(rng, ["image", "mask", "trace"], 1)
+    units = units_of(kinds)
+    has = sub(rng, units[1:], 0)[:2]          # what file 1 can really read
+    steps = [dict(op="write", feats=list(units), basins=[], rechunk=None),
+             dict(op="write", feats=[SCALARS[0]], basins=[dict(
+                 kind="file", src=0, map=None, feats=list(has) or [SCALARS[0]],
+                 verify=False)])]
+    m = gen_map(rng, n)
+    steps.append(dict(op="write", feats=[], decoy=[], basins=[
+        dict(kind="file", src=1, map=m, feats=list(units), name=2,
+             verify=False),
+        dict(kind="file", src=0, map=m, feats=None, name=5, verify=False)]))
+    lacking = [nm for nm in expand(units)
+               if nm not in expand(has) and nm != SCALARS[0]]
+    names = lacking or expand(units)
+    return dict(seed=seed, n=n, kinds=kinds, steps=steps,
+                move=rng.choice([False, False, True]),
+                queries=_some_queries(rng, 2, names, len(m), 5)
+                + _some_queries(rng, 2, expand(units), len(m), 2))
+
+
+def gen_disagree_case(rng):
+    """An internal basin and a file basin offer the same features with
+    different data: internal basins come first in the lookup order."""
+    seed = rng.randrange(10 ** 6)
+    n = rng.choice([2, 3, 5, 8])
+    kinds = ["scalar"] + sub(rng, ["image"], 0)
+    units = units_of(kinds)
+    rows = [rng.randrange(n) for _ in range(rng.randint(1, n))]
+    m = [rng.randrange(len(rows)) for _ in range(rng.randint(1, n + 2))]
+    ifeats = sub(rng, [u for u in units if u in SCALARS + ["image"]], 1)
+    steps = [dict(op="write", feats=list(units), basins=[], rechunk=None),
+             dict(op="write", feats=[], basins=[
+                 dict(kind="internal", src=0, rows=rows, map=m, feats=ifeats,
+                      decoy=True),
+                 dict(kind="file", src=0, map=[rows[j] for j in m],
+                      feats=None, name=None, verify=False)])]
+    return dict(seed=seed, n=n, kinds=kinds, steps=steps, move=False,
+                queries=_some_queries(rng, 1, expand(ifeats), len(m), 4)
+                + _some_queries(rng, 1, expand(units), len(m), 3))
+
+
 def gen_case(rng, thorough=False):
-    if rng.random() < 0.22:
+    r0 = rng.random()
+    if r0 < 0.28:
         return gen_focus_case(rng)
+    if r0 < 0.33:
+        return gen_missing_case(rng)
+    if r0 < 0.38:
+        return gen_disagree_case(rng)
     seed = rng.randrange(10 ** 6)
     big = rng.random() < (0.15 if thorough else 0.08)
     n = rng.choice([1, 2, 3, 5, 8, 13, 21]) if not big else rng.choice(
